@@ -383,7 +383,18 @@ def _check(hyps, goal, timeout_ms=TIMEOUT_MS, rlimit=RLIMIT):
         s.add(h)
     s.add(z3.Not(goal))
     t0 = time.time()
-    r = s.check()
+    # z3's own timeout is not always honoured (observed: a check that sits for minutes at 0% CPU past its 30 s budget); a watchdog thread interrupts the
+    # context a little after the budget, which turns such a check into `unknown`
+    import threading
+    wd = threading.Timer(timeout_ms / 1000.0 + 5.0, lambda: s.ctx.interrupt())
+    wd.daemon = True
+    wd.start()
+    try:
+        r = s.check()
+    except z3.Z3Exception:
+        r = z3.unknown
+    finally:
+        wd.cancel()
     dt = time.time() - t0
     return r, s, dt
 
